@@ -70,6 +70,7 @@ THEOREMS = [
     'C17_lattice_no_opt_rejected_any',
     'C17_arrives_options',
     'C17_arrives_options_more',
+    'C17_arrives_options_arrays',
     'C17_surplus_surface_params_exact',
     'C17_fill_array_trailing_numbers',
     'C17_facet_skipped_cells_unchecked',
@@ -78,6 +79,8 @@ THEOREMS = [
     'C17_tr_arity_error_class',
     'C17_fill_transformation_length',
     'C17_lattice_transformation_length',
+    'C17_reads_c06_ranges_linked',
+    'C17_fill_array_surplus_linked',
     'C17_finished_run_is_clean',
 ]
 TRUSTED = [
@@ -453,12 +456,19 @@ def convert_watchdog(text, args, secs=8.0):
     old = signal.signal(signal.SIGALRM, _alarm)
     signal.setitimer(signal.ITIMER_REAL, secs)
     try:
-        with warnings.catch_warnings():
-            warnings.simplefilter('ignore')
-            return impl.convert(text, args, keep_stdout=False)
-    finally:
-        signal.setitimer(signal.ITIMER_REAL, 0)
-        signal.signal(signal.SIGALRM, old)
+        try:
+            with warnings.catch_warnings():
+                warnings.simplefilter('ignore')
+                return impl.convert(text, args, keep_stdout=False)
+        finally:
+            signal.setitimer(signal.ITIMER_REAL, 0)
+            signal.signal(signal.SIGALRM, old)
+    except WatchdogTimeout:
+        # the alarm went off outside the try block of impl.convert (clean-up
+        # of the scratch directory): still a run that did not end in time
+        conv = impl.ConvResult()
+        conv.exc, conv.msg = 'WatchdogTimeout', 'conversion still running'
+        return conv
 
 
 OWN_EXCEPTIONS = {'TransformationError', 'LatticeError', 'MissingLatticeOptError',
@@ -730,22 +740,57 @@ def gen_cell_option(rng):
 # the check
 # ---------------------------------------------------------------------------
 
+# The generated Coq files of the ties are evaluated in the background while
+# the implementation side of the next ties runs; _flush_ties collects them in
+# order (obligations, disagreements) at the end of the run.
+_POOL = None
+_PENDING = []
+
+
+def _submit(name, case_type, check_fun, cases):
+    global _POOL
+    if _POOL is None:
+        from concurrent.futures import ThreadPoolExecutor
+        _POOL = ThreadPoolExecutor(max_workers=6)
+    return _POOL.submit(common.run_case_files, 'c17_' + name, HEADER,
+                        case_type, check_fun, list(cases))
+
+
 def _tie(res, name, case_type, check_fun, cases, metas, describe):
-    bad, errs = common.run_case_files('c17_' + name, HEADER, case_type,
-                                      check_fun, cases)
-    res.obligation(f'tie:{name} ({len(cases)} cases)', not bad and not errs,
-                   f'{len(bad)} disagreements {errs[:1]}')
-    for idx in bad[:8]:
-        what, payload = describe(metas[idx])
-        payload['theorem_or_correspondence'] = 'tie:' + name
-        res.violation('correspondence', f'tie:{name}: model and implementation '
-                      f'disagree: {what}', payload, found_input=False)
-    if errs and not bad:
-        res.violation('correspondence', f'tie:{name}: generated Coq file did '
-                      f'not evaluate: {errs[0][-300:]}',
-                      {'theorem_or_correspondence': 'tie:' + name},
-                      found_input=False)
-    return bad
+    fut = _submit(name, case_type, check_fun, cases)
+    _PENDING.append(('tie', name, fut, len(cases), list(metas), describe))
+
+
+def _count_outside(res, name, label, case_type, check_fun, cases, limit=None):
+    fut = _submit(name, case_type, check_fun, cases)
+    _PENDING.append(('outside', label, fut, len(cases), limit, None))
+
+
+def _flush_ties(res):
+    pending, _PENDING[:] = list(_PENDING), []
+    for kind, name, fut, ncases, metas, describe in pending:
+        bad, errs = fut.result()
+        if kind == 'outside':
+            res.count(f'{name}:outside-the-model', len(bad))
+            if metas is not None:
+                res.obligation(f'tie:{name} coverage (at most 10% of the cases '
+                               'fall outside the model)',
+                               len(bad) * 10 <= ncases and not errs,
+                               f'{len(bad)} of {ncases}')
+            continue
+        res.obligation(f'tie:{name} ({ncases} cases)', not bad and not errs,
+                       f'{len(bad)} disagreements {errs[:1]}')
+        for idx in bad[:8]:
+            what, payload = describe(metas[idx])
+            payload['theorem_or_correspondence'] = 'tie:' + name
+            res.violation('correspondence', f'tie:{name}: model and '
+                          f'implementation disagree: {what}', payload,
+                          found_input=False)
+        if errs and not bad:
+            res.violation('correspondence', f'tie:{name}: generated Coq file '
+                          f'did not evaluate: {errs[0][-300:]}',
+                          {'theorem_or_correspondence': 'tie:' + name},
+                          found_input=False)
 
 
 def anchored_functions():
@@ -854,9 +899,7 @@ def _run(res, tier, seed, proofs_ok):
 
     bad_corpus = []
     for name, text, args, expected in CORPUS:
-        with warnings.catch_warnings():
-            warnings.simplefilter('ignore')
-            conv = impl.convert(text, args, keep_stdout=False)
+        conv = convert_watchdog(text, args)
         got = None if conv.ok else G.err_of(conv.exc, conv.msg)
         res.seen(('corpus', name))
         res.count('corpus:' + name + ':' + (got or 'ok'))
@@ -1161,6 +1204,7 @@ def _run(res, tier, seed, proofs_ok):
                           payload, cls=classify(cls, where, deck),
                           found_input=True)
         if out[0] == 'err' and out[2] == 'WatchdogTimeout':
+            res.count(f'hang:{cls or "valid"}')
             res.violation('impl-violation',
                           f'the conversion does not end ({cls}: {where})',
                           payload, cls=('hex_lattice_nonprism_hang'
@@ -1219,22 +1263,18 @@ def _run(res, tier, seed, proofs_ok):
          'check_cellopts', cell_cases, metas2,
          lambda m: (f'options {m[4]!r} trs={m[0]} imps={m[1]} rank={m[2]} '
                     f'lat={m[3]}', {'input': {'cellopts': list(m[:5])}}))
-    bad, errs = common.run_case_files('c17_cellmod', HEADER,
-                                      'cellcase * res (cellsum (T:=float))',
-                                      'cell_modelled', cell_cases)
-    res.count('cellopts:outside-the-model', len(bad))
-    bad = _tie(res, 'deck', 'fdeck * res unit', 'check_deck', deck_cases,
-               deck_metas,
-               lambda m: (f'{m[1] or "valid"} {m[2]}: implementation {m[3]}',
-                          {'input': {'deck': m[0], 'deck_text': G.render(m[0]),
-                                     'args': G.cli_args(m[0])},
-                           'fault': m[1], 'where': m[2]}))
-    unm, errs = common.run_case_files('c17_deckmod', HEADER, 'fdeck * res unit',
-                                      'deck_modelled', deck_cases)
-    res.count('deck:outside-the-model', len(unm))
-    res.obligation('tie:deck coverage (at most 10% of the decks fall outside '
-                   'the model)', len(unm) * 10 <= len(deck_cases) and not errs,
-                   f'{len(unm)} of {len(deck_cases)}')
+    _count_outside(res, 'cellmod', 'cellopts',
+                   'cellcase * res (cellsum (T:=float))', 'cell_modelled',
+                   cell_cases)
+    _tie(res, 'deck', 'fdeck * res unit', 'check_deck', deck_cases,
+         deck_metas,
+         lambda m: (f'{m[1] or "valid"} {m[2]}: implementation {m[3]}',
+                    {'input': {'deck': m[0], 'deck_text': G.render(m[0]),
+                               'args': G.cli_args(m[0])},
+                     'fault': m[1], 'where': m[2]}))
+    _count_outside(res, 'deckmod', 'deck', 'fdeck * res unit', 'deck_modelled',
+                   deck_cases, limit=10)
+    _flush_ties(res)
     res.extra['fault_classes'] = sorted(G.FAULTS)
 
 
